@@ -409,7 +409,8 @@ func c02R4(c *Ctx) {
 	fromActual := func(t *Term) bool { return t.Has(isParamField(fn, 0, "ActualVersion")) }
 	fromQuery := func(t *Term) bool { return t.Has(isParamField(fn, 0, "QueryVersion")) }
 	found := 0
-	eachInstr(fn, func(in ssa.Instruction) {
+	rg4 := p.RegionOf(fn, 2) // a part may be rebuilt by a helper of the package
+	rg4.Instrs(func(site regionSite, in ssa.Instruction) {
 		cc := callCommon(in)
 		if cc == nil {
 			return
@@ -418,17 +419,18 @@ func c02R4(c *Ctx) {
 		if f == nil {
 			return
 		}
+		tOf := func(v ssa.Value) *Term { return rg4.Term(site, v) }
 		if f == hyNew && hyNew != nil {
 			found++
-			v := p.TermOf(cc.Args[1])
+			v := tOf(cc.Args[1])
 			c.Check(fromActual(v) && !fromQuery(v), "R4", name+":hyper.Value", in.Pos(), "hyper proof value ← "+v.String(), "hyper proof value is "+v.String()+", must derive from mr.ActualVersion only")
-			k := p.TermOf(cc.Args[0])
+			k := tOf(cc.Args[0])
 			c.Check(k.Has(isParamField(fn, 0, "KeyDigest")), "R4", name+":hyper.Key", in.Pos(), "hyper proof key ← "+k.String(), "hyper proof key is "+k.String()+", must be mr.KeyDigest")
 		}
 		if f == hiNew && hiNew != nil {
 			found++
-			idx := p.TermOf(cc.Args[0])
-			ver := p.TermOf(cc.Args[1])
+			idx := tOf(cc.Args[0])
+			ver := tOf(cc.Args[1])
 			c.Check(isParamField(fn, 0, "ActualVersion")(idx), "R4", name+":history.Index", in.Pos(), "history index ← "+idx.String(), "history index is "+idx.String()+", must be mr.ActualVersion")
 			c.Check(isParamField(fn, 0, "QueryVersion")(ver), "R4", name+":history.Version", in.Pos(), "history version ← "+ver.String(), "history version is "+ver.String()+", must be mr.QueryVersion")
 		}
